@@ -78,15 +78,22 @@ Definition wf_script_entry (x : Z * resp) : bool :=
   (0 <=? fst x) && match snd x with Fail e => negb (e =? 0) | _ => true end.
 Definition no_eintr (x : Z * resp) : bool :=
   match snd x with Interrupted => false | Fail e => negb (e =? EINTR) | _ => true end.
-Definition wf (c : cfg) : bool :=
+(** what the entry points accept *)
+Definition wf_input (c : cfg) : bool :=
   (1 <=? c_limit c) && (c_limit c <=? U64MAX) && in_u64 (c_t0 c)
   && forallb wf_script_entry (c_script c)
   && match c_shape c with
      | SBuf _ => Nat.eqb (List.length (c_lens c)) 1
-     | SVec _ _ => true
-     | SAccept => true
-     | SConnect => forallb no_eintr (firstn 1 (c_script c))
+     | _ => true
      end.
+(** known finding [connect_eintr_spins]: a hooked connect whose inner call is interrupted never
+    returns (the retry branch does not call connect again and changes nothing) *)
+Definition no_connect_eintr (c : cfg) : bool :=
+  match c_shape c with
+  | SConnect => forallb no_eintr (firstn 1 (c_script c))
+  | _ => true
+  end.
+Definition wf (c : cfg) : bool := wf_input c && no_connect_eintr c.
 Definition moves_bytes (c : cfg) : bool :=
   match shape_dir (c_shape c) with Some _ => true | None => false end.
 
